@@ -520,6 +520,123 @@ class MsbuildSolutionRun(Bounded):
             shutil.rmtree(top, ignore_errors=True)
 
 
+class MsbuildLinkSolution(Bounded):
+    """Linked targets in the MSBuild backend with the MSVC builder on the Windows platform flavour (real builtins and
+    msbuild.write; no Windows tool is run): static library, shared library (a step with several outputs whose public
+    one is the import library) and programs linking to them, over a history of three script versions written into the
+    same build directory.  Every run: one project per linked target with its own GUID, every dependency entry names
+    a project of the solution, and the dependencies of a project are exactly the libraries its step links to; a
+    project that exists in consecutive runs keeps its GUID."""
+    target = 'bfg9000/builtins/link.py::msbuild_link'
+    properties = ('C20',)
+    reason = 'whole builtin layer plus the msbuild writer over a history of runs: runtime contract only'
+    # name -> (kind, libs)
+    HISTORIES = {
+        'add-then-remove': [
+            {'util': ('static_library', []), 'core': ('shared_library', ['util']), 'app': ('executable', ['core', 'util'])},
+            {'util': ('static_library', []), 'core': ('shared_library', ['util']), 'app': ('executable', ['core', 'util']),
+             'plug': ('shared_library', ['core']), 'tool': ('executable', ['plug'])},
+            {'util': ('static_library', []), 'core': ('shared_library', ['util']), 'tool': ('executable', ['core'])},
+        ],
+        'shared-only': [
+            {'core': ('shared_library', []), 'app': ('executable', ['core'])},
+            {'core': ('shared_library', [])},
+            {'core': ('shared_library', []), 'app': ('executable', ['core'])},
+        ],
+    }
+
+    def native_inputs(self, case, alphabet, maxlen, rng, extra=0):
+        for k in self.HISTORIES:
+            yield {'history': k}
+
+    @staticmethod
+    def project_name(name, kind):
+        return name if kind == 'executable' else 'lib' + name
+
+    def native_check(self, case, raw):
+        import logging, os, re as _re, shutil, tempfile
+        from unittest import mock
+        from bfg9000.build_inputs import BuildInputs
+        from bfg9000.builtins import builtin, init as builtin_init
+        from bfg9000.environment import Environment, EnvVarDict
+        from bfg9000.path import InstallRoot, Path, Root
+        from bfg9000.backends.msbuild import writer as msbuild
+        from bfg9000.tools.msvc import MsvcBuilder
+        builtin_init()
+        top = tempfile.mkdtemp(prefix='pyvc_sln_')
+        cwd = os.getcwd()
+        logging.disable(logging.CRITICAL)
+        try:
+            src, bld = top + '/src', top + '/b'
+            os.makedirs(src)
+            os.makedirs(bld)
+            previous = None
+            for attempt, script in enumerate(self.HISTORIES[raw['history']]):
+                with mock.patch('bfg9000.platforms.core.platform_name', return_value='winnt'):
+                    env = Environment(Path('/bfgdir', Root.absolute), 'msbuild', None, Path(src, Root.absolute), Path(bld, Root.absolute))
+                env.finalize({InstallRoot.prefix: Path('/prefix', Root.absolute)}, (False, False), False)
+                env.variables = EnvVarDict()
+                env.variables.update({'CXX': 'nonexist', 'CC': 'nonexist'})
+                build = BuildInputs(env, Path('build.bfg', Root.srcdir))
+                ctx = builtin.BuildContext(env, build, None)
+                ctx.path_stack.append(builtin.BuildContext.PathEntry(build.bfgpath))
+                os.chdir(bld)
+                try:
+                    with mock.patch('bfg9000.tools.c_family._builders', (MsvcBuilder,)):
+                        ctx['project']('proj')
+                        made = {}
+                        for name, (kind, libs) in script.items():
+                            made[name] = ctx[kind](name, ctx['source_file'](name + '.cpp'), libs=[made[l] for l in libs])
+                        msbuild.write(env, build)
+                except Exception as e:      # noqa
+                    return self.fail(case, raw, 'solution_is_written', run=attempt, error=repr(e)[:300])
+                finally:
+                    os.chdir(cwd)
+                text = open(bld + '/proj.sln').read()
+                projs = {}
+                cur = None
+                deps = {}
+                for line in text.splitlines():
+                    m = _re.match(r'^Project\("([^"]*)"\) = "([^"]*)", "([^"]*)", "([^"]*)"$', line)
+                    if m:
+                        cur = m.group(2)
+                        if cur in projs:
+                            return self.fail(case, raw, 'one_project_per_target', run=attempt, project=cur)
+                        projs[cur] = m.group(4)
+                        deps[cur] = []
+                        continue
+                    if line == 'EndProject':
+                        cur = None
+                    m = _re.match(r'^\t\t(\{[^}]*\}) = (\{[^}]*\})$', line)
+                    if m and cur is not None:
+                        if m.group(1) != m.group(2):
+                            return self.fail(case, raw, 'dependency_refers_to_a_project_of_the_solution', run=attempt, dep=line)
+                        deps[cur].append(m.group(1))
+                want = {self.project_name(n, k): sorted(self.project_name(l, script[l][0]) for l in libs)
+                        for n, (k, libs) in script.items()}
+                if sorted(projs) != sorted(want):
+                    return self.fail(case, raw, 'one_project_per_target', run=attempt, projects=sorted(projs), expected=sorted(want))
+                if len(set(projs.values())) != len(projs):
+                    return self.fail(case, raw, 'project_guids_unique', run=attempt, projects=projs)
+                by_guid = {g: n for n, g in projs.items()}
+                for n, ds in deps.items():
+                    if any(d not in by_guid for d in ds):
+                        return self.fail(case, raw, 'dependency_refers_to_a_project_of_the_solution', run=attempt, project=n, deps=ds)
+                    got = sorted(by_guid[d] for d in ds)
+                    if got != want[n]:
+                        return self.fail(case, raw, 'dependencies_are_the_linked_libraries', run=attempt, project=n, got=got, expected=want[n])
+                if previous is not None:
+                    moved = {n: (previous[n], g) for n, g in projs.items() if n in previous and previous[n] != g}
+                    if moved:
+                        return self.fail(case, raw, 'guid_stable_while_the_project_exists', run=attempt, changed=moved)
+                previous = projs
+            return True
+        finally:
+            logging.disable(logging.NOTSET)
+            os.chdir(cwd)
+            shutil.rmtree(top, ignore_errors=True)
+
+
 class NinjaWindowsWords(Bounded):
     """Command words written by the Ninja writer with the Windows shell (what build.ninja contains on Windows): plain
     strings and paths below a variable root whose remainder needs quoting.  The text is expanded by the Ninja rules
@@ -560,4 +677,4 @@ class NinjaWindowsWords(Bounded):
 
 
 def registry():
-    return [QuoteInfo(), UuidGetItem(), SetUuid(), WinJoinSplit(), UuidRuns(), SolutionFile(), ShellListWrap(), MsbuildSolutionRun(), NinjaWindowsWords()]
+    return [QuoteInfo(), UuidGetItem(), SetUuid(), WinJoinSplit(), UuidRuns(), SolutionFile(), ShellListWrap(), MsbuildSolutionRun(), MsbuildLinkSolution(), NinjaWindowsWords()]
